@@ -239,6 +239,7 @@ class HTMLSerializer(object):
         # pylint:disable=too-many-nested-blocks
         self.encoding = encoding
         in_cdata = False
+        pre_started = False
         self.errors = []
 
         if encoding and self.inject_meta_charset:
@@ -264,6 +265,10 @@ class HTMLSerializer(object):
 
         for token in treewalker:
             type = token["type"]
+            # the parser drops a newline that directly follows one of these
+            # start tags, so one that belongs to the text is written twice
+            after_pre = pre_started
+            pre_started = False
             if type == "Doctype":
                 doctype = "<!DOCTYPE %s" % token["name"]
 
@@ -284,6 +289,8 @@ class HTMLSerializer(object):
                 yield self.encodeStrict(doctype)
 
             elif type in ("Characters", "SpaceCharacters"):
+                if after_pre and token["data"].startswith("\n"):
+                    yield self.encode("\n")
                 if type == "SpaceCharacters" or in_cdata:
                     if in_cdata and token["data"].find("</") >= 0:
                         self.serializeError("Unexpected </ in CDATA")
@@ -293,6 +300,8 @@ class HTMLSerializer(object):
 
             elif type in ("StartTag", "EmptyTag"):
                 name = token["name"]
+                pre_started = (name in ("pre", "textarea", "listing") and
+                               token.get("namespace") in (None, namespaces["html"]))
                 yield self.encodeStrict("<%s" % name)
                 if (name in rcdataElements and not self.escape_rcdata and
                         token.get("namespace") in (None, namespaces["html"])):
